@@ -63,7 +63,18 @@ def _process_post(old, new, ret):
         ("unplug.flags", Implies(_is(e, "Unplug"), And(new.self._resolve, new.self._last_schedule_update.val == e.timestamp,
                                                        Not(new.self._last_schedule_update.isnone)))),
     ]
-    other = [
+    sid = evx._station_id.val
+    frames = [
+        ("plugin.other_stations_keep_their_occupant", Implies(_is(e, "Plugin"), occupants_frame(old, new, sim.network, sid))),
+        ("unplug.other_stations_keep_their_occupant", Implies(_is(e, "Unplug"), occupants_frame(old, new, sim.network, sid))),
+        ("unplug.station_is_vacated_or_keeps_its_occupant", Implies(_is(e, "Unplug"), Or(occ(new, sim.network, sid) == 0,
+                                                                                          occ(new, sim.network, sid) == occ(old, sim.network, sid)))),
+        ("unplug.a_different_session_is_never_vacated_silently", Implies(And(_is(e, "Unplug"), occ(old, sim.network, sid) != 0,
+                                                                           Not(old.field_of(occ(old, sim.network, sid), "EV", "_session_id") == evx._session_id)),
+                                                                       occ(new, sim.network, sid) == occ(old, sim.network, sid))),
+        ("recompute.every_station_keeps_its_occupant", Implies(Not(Or(_is(e, "Plugin"), _is(e, "Unplug"))), occupants_frame(old, new, sim.network))),
+    ]
+    other = frames + [
         ("recompute.only_resolve", Implies(_is(e, "Recompute"), And(new.self._resolve,
                                                                     Eq(new.self._last_schedule_update.isnone, old.self._last_schedule_update.isnone)))),
         ("qinv", qinv(new, new.self.event_queue)),
@@ -153,6 +164,164 @@ def owed(sim):
     return Or(sim._resolve, And(Not(mr.isnone), Or(lu.isnone, sim._iteration - lu.val >= mr.val)))
 
 
+
+# ============================================================================ session lifecycle invariants (C01: no StationOccupiedError / KeyError, termination)
+from pyvc.vtypes import id_const
+from pyvc.dsl import Given
+PRECA = ("Event.precedence#0", z3.RealSort())
+PLUGIN, UNPLUG, RECOMPUTE = id_const("Plugin"), id_const("Unplug"), id_const("Recompute")
+HB = z3.Int("horizon!B")          # ghost parameter of run(): some bound on every pending timestamp / departure (a finite queue has one)
+
+
+def _typ(s, x):
+    return z3.Select(s.heap_array(*TYPE), x)
+
+
+def _evof(s, x):
+    return z3.Select(s.heap_array(*EVOF), x)
+
+
+def _ts(s, x):
+    return z3.Select(TSA(s), x)
+
+
+def _dep(s, e):
+    return z3.Select(s.heap_array(*DEP), e)
+
+
+def _prec(s, x):
+    return z3.Select(s.heap_array(*PRECA), x)
+
+
+def _sid(s, e):
+    return s.field_of(e, "EV", "_station_id")         # Opt(Id): .isnone / .val
+
+
+def _occ_at(s, net, k):
+    return s.field_of(z3.Select(net._EVSEs._v.arrs[0], k), "BaseEVSE", "_ev").ref
+
+
+def pm_outer(s, sim):
+    """pending multiplicity at the head of the main loop: the queue's bag"""
+    return lambda x: bag(sim.event_queue, x)
+
+
+def pm_inner(s, sim):
+    """pending multiplicity inside `for e in current_events`: still queued, or popped for this period and not yet processed (cur[_k:])"""
+    cur = s.current_events.v
+    arr = cur.arrs[-1]
+    return lambda x: bag(sim.event_queue, x) + H.CNT(arr, cur.len, x) - H.CNT(arr, s._k, x)
+
+
+WIT2 = z3.Function("cnt_suffix_wit", H.ArrIR, z3.IntSort(), z3.IntSort(), RefSort, z3.IntSort())
+
+
+def cnt_prefix_facts(arr, k, n):
+    """instances of the recursive definition of cnt (multiplicity in a prefix) for the prefix lengths k and k + 1 of a list of length n  (A-LIB)"""
+    x = z3.Const("cx!pf", RefSort)
+    c = lambda m, y: H.CNT(arr, m, y)
+    return [
+        FA([x], c(0, x) == 0, patterns=[c(0, x)]),
+        FA([x], z3.Implies(z3.And(k >= 0, k < n), c(k + 1, x) == c(k, x) + z3.If(z3.Select(arr, k) == x, 1, 0)), patterns=[c(k + 1, x)]),
+        FA([x], z3.Implies(z3.And(k >= 0, k < n), c(k + 1, x) == c(k, x) + z3.If(z3.Select(arr, k) == x, 1, 0)), patterns=[c(k, x)]),
+        FA([x], z3.Implies(z3.And(k >= 0, k <= n), z3.And(c(k, x) >= 0, c(k, x) <= c(n, x))), patterns=[c(k, x)]),
+        FA([x], z3.Implies(z3.And(k >= 0, k < n), z3.And(c(k + 1, x) >= 0, c(k + 1, x) <= c(n, x))), patterns=[c(k + 1, x)]),
+        FA([x], c(n, x) >= 0, patterns=[c(n, x)]),
+        FA([x], z3.Implies(z3.And(k >= 0, k <= n, c(n, x) - c(k, x) > 0),
+                           z3.And(WIT2(arr, k, n, x) >= k, WIT2(arr, k, n, x) < n, z3.Select(arr, WIT2(arr, k, n, x)) == x)), patterns=[c(k, x)]),
+    ]
+
+
+def _unplug_q(s, pm):
+    """Q(x, e): x is a pending Unplug event of EV e scheduled at e's departure"""
+    return lambda x, e: z3.And(pm(x) > 0, s.alloc_ref(x), x != 0, _typ(s, x) == UNPLUG, _evof(s, x) == e, _ts(s, x) == _dep(s, e))
+
+
+def unplug_choice(s, pm):
+    """Hilbert choice: a function symbol introduced for exactly this Q (named after the formula's AST id, so a different state gets a
+    different symbol) with its defining axiom  Q(x, e) => Q(CH(e), e)"""
+    x, e = z3.Const("cx!u", RefSort), z3.Const("ce!u", RefSort)
+    q = _unplug_q(s, pm)
+    body = q(x, e)
+    ch = z3.Function(f"unplug_of!{z3.Lambda([x, e], body).get_id()}", RefSort, RefSort)
+    ax = FA([x, e], z3.Implies(body, q(ch(e), e)), patterns=[z3.MultiPattern(_evof(s, x), ch(e))])
+    ax2 = FA([x], z3.Implies(body_at(q, x, _evof(s, x)), q(ch(_evof(s, x)), _evof(s, x))), patterns=[_typ(s, x)])
+    return ch, [ax, ax2]
+
+
+def body_at(q, x, e):
+    return q(x, e)
+
+
+def lifecycle(s, sim, pm, extra_axioms=()):
+    """K1-K6 over the pending multiplicity pm; returns tagged clauses"""
+    net = sim.network
+    m = net._EVSEs._v
+    x, y = z3.Const("lx!k", RefSort), z3.Const("ly!k", RefSort)
+    k = z3.Const("lk!k", IdSort)
+    is_ev = lambda v: z3.Or(_typ(s, v) == PLUGIN, _typ(s, v) == UNPLUG)
+    sidx = _sid(s, _evof(s, x))
+    sidy = _sid(s, _evof(s, y))
+    ch, ch_ax = unplug_choice(s, pm)
+    e_k = _occ_at(s, net, k)
+    u_k = ch(e_k)
+    qv_ = sim.event_queue._queue.v
+    ax = list(extra_axioms) + [FA([x], H.CNT(qv_.arrs[-1], qv_.len, x) >= 0, patterns=[H.CNT(qv_.arrs[-1], qv_.len, x)])]
+    G = lambda goal, more=(): Given(goal, ax + list(more)) if (ax or more) else goal
+    import os as _os
+    _abl = _os.environ.get("VERIF_ABLATE", "")          # developer ablation switch (soundness self-test): drops one invariant clause
+    return [c_ for c_ in _lifecycle_clauses(s, m, pm, x, y, k, is_ev, sidx, sidy, ch_ax, e_k, u_k, G, net) if not (_abl and _abl in c_[0])]
+
+
+def _lifecycle_clauses(s, m, pm, x, y, k, is_ev, sidx, sidy, ch_ax, e_k, u_k, G, net):
+    return [
+        ("C01.pending_sessions_name_registered_stations",
+         G(FA([x], z3.Implies(z3.And(pm(x) > 0, is_ev(x)), z3.And(z3.Not(sidx.isnone), z3.Select(m.dom, sidx.val))), patterns=[_typ(s, x)]))),
+        ("C01.pending_events_have_the_precedence_of_their_type",
+         G(FA([x], z3.Implies(pm(x) > 0, z3.And(z3.Implies(_typ(s, x) == UNPLUG, _prec(s, x) == 0), z3.Implies(_typ(s, x) == PLUGIN, _prec(s, x) == 10))),
+              patterns=[_typ(s, x)]))),
+        ("C01.every_occupant_has_its_unplug_pending_at_its_departure",
+         G(FA([k], z3.Implies(z3.And(z3.Select(m.dom, k), e_k != 0),
+                              z3.And(_unplug_q(s, pm)(u_k, e_k), z3.Not(_sid(s, e_k).isnone), _sid(s, e_k).val == k)),
+              patterns=[z3.Select(m.arrs[0], k)]), ch_ax)),
+        ("C01.no_plugin_is_pending_on_a_station_before_its_occupant_leaves",
+         G(FA([x], z3.Implies(z3.And(pm(x) > 0, _typ(s, x) == PLUGIN, _occ_at(s, net, sidx.val) != 0),
+                              _ts(s, x) >= _dep(s, _occ_at(s, net, sidx.val))), patterns=[_typ(s, x)]))),
+        ("C01.pending_plugins_on_one_station_do_not_overlap",
+         G(z3.And(FA([x, y], z3.Implies(z3.And(pm(x) > 0, pm(y) > 0, x != y, _typ(s, x) == PLUGIN, _typ(s, y) == PLUGIN, sidx.val == sidy.val),
+                                        z3.Or(_dep(s, _evof(s, x)) <= _ts(s, y), _dep(s, _evof(s, y)) <= _ts(s, x))),
+                     patterns=[z3.MultiPattern(_typ(s, x), _typ(s, y))]),
+                  FA([x], z3.Implies(z3.And(pm(x) > 0, _typ(s, x) == PLUGIN), pm(x) <= 1), patterns=[_typ(s, x)])))),
+        ("C01.horizon_bounds_every_pending_timestamp_and_departure",
+         G(FA([x], z3.Implies(pm(x) > 0, z3.And(_ts(s, x) <= HB, z3.Implies(_typ(s, x) == PLUGIN, _dep(s, _evof(s, x)) <= HB))), patterns=[_typ(s, x)]))),
+    ]
+
+
+def unplugs_first(s, cur):
+    """among the events popped for one period no Unplug comes after a Plugin (time-then-precedence order of the queue, C11)"""
+    i, j = z3.Int("uf!i"), z3.Int("uf!j")
+    a = cur.v.arrs[-1]
+    return FA([i, j], z3.Implies(z3.And(i >= 0, i < j, j < cur.v.len), z3.Not(z3.And(_typ(s, z3.Select(a, i)) == PLUGIN, _typ(s, z3.Select(a, j)) == UNPLUG))),
+              patterns=[z3.MultiPattern(z3.Select(a, i), z3.Select(a, j))])
+
+
+def lifecycle_outer(s):
+    return lifecycle(s, s.self, pm_outer(s, s.self))
+
+
+def lifecycle_inner(s):
+    cur = s.current_events.v
+    return lifecycle(s, s.self, pm_inner(s, s.self), cnt_prefix_facts(cur.arrs[-1], s._k, cur.len))
+
+
+def occupants_frame(old, new, net, except_station=None):
+    """every station other than `except_station` keeps its occupant"""
+    k = z3.Const("of!k", IdSort)
+    m = net._EVSEs._v
+    cond = z3.Select(m.dom, k) if except_station is None else z3.And(z3.Select(m.dom, k), k != except_station)
+    return FA([k], z3.Implies(cond, _occ_at(new, net, k) == _occ_at(old, net, k)), patterns=[z3.Select(m.arrs[0], k)])
+
+
 def run_pre(s):
     sim = s.self
     h = sim.event_history
@@ -174,7 +343,7 @@ def run_pre(s):
                        sim.network._voltages.len == sim.network._EVSEs.keys.len, sim.network.magnitudes.len == sim.network.constraint_index.len,
                        sim._iteration >= 0, net_shapes(s, sim.network))),
         ("occupants_own_valid_batteries", occupants_wf(s, sim.network)),
-    ]
+    ] + lifecycle_outer(s)
 
 
 def run_inv(s):
@@ -206,6 +375,32 @@ def run_step(head, end):
         ("C05.invocation_recorded_for_this_period", Implies(grew, cb[ca.len] == t)),
         ("C05.earlier_invocations_untouched", AllIdx(0, ca.len, lambda j: cb[j] == ca[j])),
         ("C05.nothing_owed_afterwards", Not(b._resolve)),
+    ] + ledger_step(head, end)
+
+
+def ledger_step(head, end):
+    """C02, one period: what is recorded in column t of charging_rates is what every connected EV actually drew, the energy it gained is that
+    rate x its station's voltage x the period length, nobody else gained anything, earlier columns are untouched, the peak is the running maximum
+    of the aggregate current.  (The sums over a whole run follow by induction over the periods.)"""
+    from pyvc.nplib import SUM
+    a, b = head.self, end.self
+    net = a.network
+    t = a._iteration
+    R0, R1 = a.charging_rates, b.charging_rates
+    n = net._EVSEs.keys.len
+    p, j = z3.Int("ls!p"), z3.Int("ls!j")
+    e = end.field_of(evse_at(end, net, p), "BaseEVSE", "_ev").ref
+    in_net = z3.And(p >= 0, p < n)
+    rates = z3.Lambda([p], rate_of_station(end, net, p))
+    return [
+        ("C02.column_t_records_what_each_connected_ev_drew", FA([p], z3.Implies(in_net, R1[p, t] == rate_of_station(end, net, p)), patterns=[evse_at(end, net, p)])),
+        ("C02.vacant_station_records_zero", FA([p], z3.Implies(z3.And(in_net, e == 0), R1[p, t] == 0), patterns=[evse_at(end, net, p)])),
+        ("C02.energy_gained_is_recorded_rate_times_voltage_times_period",
+         FA([p], z3.Implies(z3.And(in_net, e != 0), _E(end, e) == _E(head, e) + kwh(R1[p, t], z3.Select(net._voltages.v.arrs[0], p), a.period)),
+            patterns=[evse_at(end, net, p)])),
+        ("C02.unconnected_sessions_gain_nothing", unconnected_untouched(head, end, net)),
+        ("C02.earlier_columns_untouched", FA([p, j], z3.Implies(z3.And(in_net, j >= 0, j < R0.cols, j != t), R1[p, j] == R0[p, j]))),
+        ("C02.peak_is_the_running_maximum_of_the_aggregate_current", Eq(b.peak, If(a.peak >= SUM(rates, n), a.peak, SUM(rates, n)))),
     ]
 
 
@@ -237,7 +432,8 @@ def inner_inv(s):
         ("calls_untouched", And(calls_of(sim).len == s.calls_in.len, AllIdx(0, s.calls_in.len, lambda i: calls_of(sim)[i] == s.calls_in[i]))),
         ("scheduler_attached", And(Not(IsNone(sim.scheduler._interface)), sim.scheduler._interface._simulator == sim)),
         ("occupants_own_valid_batteries", occupants_wf(s, sim.network)),
-    ]
+        ("C01.within_a_period_unplugs_are_handled_before_plugins", unplugs_first(s, cur)),
+    ] + lifecycle_inner(s)
 
 
 def resumable(old, new):
@@ -260,6 +456,9 @@ REG.contract(
     requires=[C("pre", run_pre)],
     raises=[RaiseSpec("TypeError", lambda s: IsNone(s.self.scheduler), iff=True, unchanged=True),
             RaiseSpec("SchedulerException", lambda s: True, iff=False, unchanged=False, post=resumable),
+            # C01: for valid, non-overlapping sessions event processing never fails - the raise paths of _process_event are unreachable
+            RaiseSpec("StationOccupiedError", lambda s: False, iff=False, unchanged=False, origin="Simulator._process_event"),
+            RaiseSpec("KeyError", lambda s: False, iff=False, unchanged=False, origin="Simulator._process_event"),
             RaiseSpec("Exception", lambda s: True, iff=False, unchanged=False)],
     modifies=[ALLF("BaseEVSE._ev"), ALLF("BaseEVSE._current_pilot"), ALLF("EV._energy_delivered"), ALLF("EV._current_charging_rate"),
               ALLF("Battery._current_charge"), ALLF("Battery._current_charging_power"),
@@ -277,6 +476,9 @@ REG.contract(
     ], props=("C01", "C09"))],
     loops={
         0: LoopSpec(invariant=run_inv, step=run_step,
+                    # termination: while events are pending the period counter approaches the horizon bound; once the queue is empty at most
+                    # the one owed schedule is computed
+                    decreases=lambda s: z3.If(s.self.event_queue._queue.len > 0, HB - s.self._iteration + 2, z3.If(s.self._resolve, z3.IntVal(1), z3.IntVal(0))),
                     ghost=lambda v: dict(it0=v.self._iteration, q_obj=v.self.event_queue, net_obj=v.self.network,
                                          sch_obj=v.self.scheduler, mr0=v.self.max_recompute),
                     modifies=[ALLF("BaseEVSE._ev"), ALLF("BaseEVSE._current_pilot"), ALLF("EV._energy_delivered"), ALLF("EV._current_charging_rate"),
@@ -300,6 +502,8 @@ REG.contract(
                               ("Event.timestamp", "FRESH"), ("Event.event_type", "FRESH"), ("Event.precedence", "FRESH"), ("EVEvent.ev", "FRESH"),
                               "alloc", "warnings"]),
     },
+    # C01: for valid, non-overlapping sessions (lifecycle invariants) processing an event never fails
+    extra=dict(callee_never_raises={"Simulator._process_event": ["StationOccupiedError", "KeyError"]}),
 )
 
 # ---------------------------------------------------------------------------- callees of the loop (contracts)
@@ -309,7 +513,9 @@ REG.contract(
             "simulator state (it only sees the copies handed out by Interface - that isolation is what C05 checks); "
             "ghost_calls records the period of the invocation",
     requires=[C("attached", lambda s: And(Not(IsNone(s.self._interface)))),
-              C("C05.events_of_the_period_already_applied", lambda s: I1(s, s.self._interface._simulator, strict=True))],
+              C("C05.events_of_the_period_already_applied", lambda s: I1(s, s.self._interface._simulator, strict=True)),
+              # what the scheduler then reads through Interface is well-formed: the observation accessors (contracts/interface.py) require it
+              C("C05.every_connected_ev_carries_its_stations_id", lambda s: occupants_know_their_station(s, s.self._interface._simulator.network))],
     raises=[RaiseSpec("SchedulerException", lambda s: True, iff=False, unchanged=True)],
     modifies=[("BaseAlgorithm.ghost_calls", lambda s: [s.self])],
     ensures=[C("ghost", lambda old, new, ret: [
@@ -407,11 +613,74 @@ def evse_at(s, net, k):
     return z3.Select(m.arrs[0], z3.Select(m.keys.arrs[0], k))
 
 
+EDEL = ("EV._energy_delivered#0", z3.RealSort())
+ERATE = ("EV._current_charging_rate#0", z3.RealSort())
+BCH = ("Battery._current_charge#0", z3.RealSort())
+
+
+def _E(s, e):
+    return z3.Select(s.heap_array(*EDEL), e)
+
+
+def _rate(s, e):
+    return z3.Select(s.heap_array(*ERATE), e)
+
+
+def _bcharge(s, e):
+    """stored charge of the battery of EV e"""
+    return z3.Select(s.heap_array(*BCH), s.field_of(e, "EV", "_battery").ref)
+
+
+def occupants_know_their_station(s, net):
+    """an EV connected to station k carries station id k (hence no EV is connected to two stations)"""
+    k = z3.Const("oks!k", IdSort)
+    m = net._EVSEs._v
+    e = _occ_at(s, net, k)
+    return FA([k], z3.Implies(z3.And(z3.Select(m.dom, k), e != 0), z3.And(z3.Not(_sid(s, e).isnone), _sid(s, e).val == k)),
+              patterns=[z3.Select(m.arrs[0], k)])
+
+
+def is_occupant(s, net, e):
+    sid = _sid(s, e)
+    return z3.And(z3.Not(sid.isnone), z3.Select(net._EVSEs._v.dom, sid.val), _occ_at(s, net, sid.val) == e)
+
+
+def kwh(rate, voltage, period):
+    return rate * voltage / 1000 * (period / 60)
+
+
+def ledger_stations(a, b, net, volts, period, lo, hi, charged):
+    """for the stations at registration positions lo <= p < hi: the occupant's delivered energy in state b is its energy in state a plus (charged)
+    rate_b x V_p x dt - or (not charged) exactly what it was in a.  (That the same amount enters the battery is the per-call contract of EV.charge;
+    carrying it through the loop would need "no two EVs share a battery" as an invariant - A-OWN - and is left to the per-call proof.)"""
+    p = z3.Int("lg!p")
+    e = b.field_of(evse_at(b, net, p), "BaseEVSE", "_ev").ref
+    if charged:
+        body = _E(b, e) == _E(a, e) + kwh(_rate(b, e), z3.Select(volts.v.arrs[0], p), period)
+    else:
+        body = z3.And(_E(b, e) == _E(a, e), _rate(b, e) == _rate(a, e))
+    return FA([p], z3.Implies(z3.And(p >= lo, p < hi, e != 0), body), patterns=[evse_at(b, net, p)])
+
+
+def unconnected_untouched(a, b, net):
+    """an EV that is not connected to a station of this network neither gains energy nor changes its recorded rate"""
+    e = z3.Const("lg!e", RefSort)
+    return FA([e], z3.Implies(z3.Not(is_occupant(b, net, e)), z3.And(_E(b, e) == _E(a, e), _rate(b, e) == _rate(a, e))),
+              patterns=[_E(b, e)])
+
+
 def _up_inv(s):
     net = s.self
     j = z3.Int("up!j")
     pil = lambda r: s.field_of(r, "BaseEVSE", "_current_pilot")
-    return [
+    n = net._EVSEs.keys.len
+    ledger = [
+        ("C02.stations_before_k_charged_their_occupant_once", ledger_stations(s.entry_state, s, net, net._voltages, s.period, 0, s._k, True)),
+        ("C02.stations_from_k_on_untouched", ledger_stations(s.entry_state, s, net, net._voltages, s.period, s._k, n, False)),
+        ("C02.unconnected_evs_untouched", unconnected_untouched(s.entry_state, s, net)),
+        ("occupants_know_their_station", occupants_know_their_station(s, net)),
+    ]
+    return ledger + [
         ("wf", net_wf(s, net)),
         ("ids_are_the_registered_stations", And(s.ids.len == net._EVSEs.keys.len,
                                                 AllIdx(0, s.ids.len, lambda i: s.ids[i] == net._EVSEs.keys[i]))),
@@ -449,7 +718,8 @@ REG.contract(
     N_ + "update_pilots", params=dict(self=Ref("ChargingNetwork", exact=True), pilots=Mat, i=Int, period=Real),
     requires=[C("wf", lambda s: And(net_wf(s, s.self), occupants_wf(s, s.self))),
               C("shapes", lambda s: And(s.pilots.rows == s.self._EVSEs.keys.len, s.self._voltages.len == s.self._EVSEs.keys.len,
-                                        s.i >= 0, s.i < s.pilots.cols))],
+                                        s.i >= 0, s.i < s.pilots.cols)),
+              C("occupants_know_their_station", lambda s: occupants_know_their_station(s, s.self))],
     raises=[RaiseSpec("InvalidRateError", lambda s: True, iff=False, unchanged=False),
             RaiseSpec("ValueError", lambda s: True, iff=False, unchanged=False)],
     modifies=[ALLF("BaseEVSE._current_pilot"), ALLF("EV._energy_delivered"), ALLF("EV._current_charging_rate"),
@@ -457,6 +727,8 @@ REG.contract(
     ensures=[C("C04.column_i_is_sent_to_every_station", lambda old, new, ret: [
         ("every_station_has_its_pilot", FA([z3.Int("up!p")], z3.Implies(z3.And(z3.Int("up!p") >= 0, z3.Int("up!p") < old.self._EVSEs.keys.len),
                                                   new.field_of(evse_at(old, old.self, z3.Int("up!p")), "BaseEVSE", "_current_pilot") == old.pilots[z3.Int("up!p"), old.i]))),
+        ("C02.every_occupant_gains_its_rate_times_voltage_times_period", ledger_stations(old, new, old.self, old.self._voltages, old.period, 0, old.self._EVSEs.keys.len, True)),
+        ("C02.unconnected_evs_gain_nothing", unconnected_untouched(old, new, old.self)),
         ("occupants_still_own_valid_batteries", occupants_wf(new, old.self)),
         ("valid_batteries_stay_valid", batteries_keep_inv(old, new)),
         ("registry_untouched", net_wf(new, old.self)),
